@@ -36,6 +36,11 @@ def run(ctx):
         '(_fuel_cond(i, .) with the loop index) and carries nothing but the '
         'temperature from one shell to the next (no upward-exposed local in '
         'the loop body)']
+    ctx.decided += [
+        'R6 the power density the fuel shells see is linear power over the '
+        'cross-section the shells tile: fuel area = pi (R^2 - r_in^2) with R '
+        'the very radius the fractional shell radii are scaled with (pellet '
+        'outer radius = clad inner radius - gap), and q_dens = q_lin / area']
     ctx.not_decided += ['gap with radiation (sign of the iterate)',
                         'clad ID >= MW (needs monotonicity of ln)',
                         'conduction residuals as numbers']
@@ -47,6 +52,8 @@ def run(ctx):
     r4(ctx)
     r5(ctx)
     ctx.min_instances('C13.R5', 3)
+    r6(ctx)
+    ctx.min_instances('C13.R6', 2)
     ctx.min_instances('C13.R1', 12)
     ctx.min_instances('C13.R2', 3)
     ctx.min_instances('C13.R4', 3)
@@ -452,3 +459,53 @@ def r5(ctx):
                 'material would be used)' % (names or 'a conductivity '
                                              'evaluated outside the loop'),
                 key=fi.full + ' | loop-carried state')
+
+
+# ---------------------------------------------------------------------------
+# R6: fuel cross-section consistent with the shell radii
+
+def r6(ctx):
+    from ..poly import Rat, from_ast, NotPolynomial
+    init = ctx.repo.func('pin_model', 'PinModel.__init__')
+    scale = [st for t, st in U.stores(init.node)
+             if src(t) == "self.fuel['r']" and isinstance(st, ast.AugAssign)
+             and isinstance(st.op, ast.Mult)]
+    area = [st for t, st in U.stores(init.node)
+            if src(t) == "self.fuel['area']"]
+    if len(scale) != 1 or not area:
+        raise AnalysisError('PinModel.__init__: fuel radii scale / area')
+    S = ' '.join(src(U.expand_locals(init.node, scale[0].value,
+                                     before=scale[0].lineno)).split())
+    at = {'np.pi': 'pi', S: 'S', "self.fuel['r'][0, 0]": 'r0',
+          "self.fuel['r'][0][0]": 'r0'}
+    total = None
+    ok = True
+    try:
+        for st in sorted(area, key=lambda x: x.lineno):
+            v = from_ast(U.expand_locals(init.node, st.value,
+                                         before=st.lineno), at, auto=True)
+            if isinstance(st, ast.Assign):
+                total = v
+            elif isinstance(st.op, ast.Sub) and total is not None:
+                total = total - v
+            elif isinstance(st.op, ast.Add) and total is not None:
+                total = total + v
+            else:
+                ok = False
+    except NotPolynomial:
+        ok = False
+    pi, Ssym, r0 = Rat.sym('pi'), Rat.sym('S'), Rat.sym('r0')
+    want = pi * (Ssym * Ssym - r0 * r0)
+    ctx.require(ok and total is not None and total.equals(want), 'C13.R6',
+                init, area[0],
+                'fuel cross-section must be pi (R^2 - r_in^2) with R = %s, '
+                'the radius the shell radii are scaled with (found %s)'
+                % (S, None if total is None else repr(total.n)[:120]),
+                key=init.full + ' | fuel area')
+    ct = ctx.repo.func('pin_model', 'PinModel.calculate_temperatures')
+    qd = U.single_def(ct.node, 'q_dens')
+    ctx.require(qd is not None and ' '.join(src(qd).split()) ==
+                "q_lin / self.fuel['area']", 'C13.R6', ct,
+                qd if qd is not None else ct.node,
+                'power density = linear power / fuel cross-section',
+                key=ct.full + ' | power density')
